@@ -184,7 +184,7 @@ func PerType(nat []Seed, maxPerType int) []TSeed {
 		}
 		seen[k] = true
 		count[fl.Name]++
-		out = append(out, TSeed{First: fl, Data: append([]byte(nil), d...), Name: name})
+		out = append(out, TSeed{First: fl, Data: exact(d), Name: name})
 	}
 	for _, s := range nat {
 		add(s.First, s.Data, s.Name)
